@@ -660,7 +660,7 @@ def completeDelivers (cap : Nat) (desync : Bool) (m : Msg) : Bool :=
 
 theorem complete_eq (cap : Nat) (s : Link) (m : Msg) :
     Link.complete cap s m =
-      { s with cur := none, desync := completeDesync cap s.desync m,
+      { s with cur := none, desync := completeDesync cap s.desync m, completed := s.completed ++ [m],
                delivered := if completeDelivers cap s.desync m then s.delivered ++ [m] else s.delivered } := by
   unfold Link.complete completeDesync completeDelivers
   cases hd : s.desync
@@ -1057,5 +1057,360 @@ theorem sim_run (c : Cfg) (nq : Nat) (w : World) (s : Link) (ops : List Op) (hc 
   | cons op ops ih =>
     simp only [World.run, specRun, List.foldl_cons]
     exact ih _ _ (sim_step c nq w s op hc h hops.1) hops.2
+
+/-! ### what the abstract link guarantees (no model involved) -/
+
+/-- the messages of the `send` operations of a history, in order -/
+def sentMsgs : List Op → List Msg
+  | [] => []
+  | .send d p :: ops => ⟨d, p⟩ :: sentMsgs ops
+  | _ :: ops => sentMsgs ops
+
+theorem ofDlci_append (d : Nat) (xs ys : List Msg) : ofDlci d (xs ++ ys) = ofDlci d xs ++ ofDlci d ys := by
+  simp [ofDlci, List.filter_append]
+
+theorem pick_spec (pending : List Msg) (m : Msg) (rest : List Msg) (h : pick pending = some (m, rest)) :
+    (∀ x ∈ pending, m.dlci ≤ x.dlci) ∧ m ∈ pending ∧
+    ofDlci m.dlci pending = m :: ofDlci m.dlci rest ∧
+    (∀ d, d ≠ m.dlci → ofDlci d rest = ofDlci d pending) ∧ (∀ x ∈ rest, x ∈ pending) := by
+  unfold pick at h
+  cases hmin : minDlci pending with
+  | none => simp [hmin] at h
+  | some d =>
+    simp only [hmin] at h
+    obtain ⟨m', rest', hr, hm, hf, ho, hsub, hmem⟩ := removeFirst_spec d pending (minDlci_mem pending d hmin)
+    rw [hr] at h
+    simp at h
+    obtain ⟨rfl, rfl⟩ := h
+    subst hm
+    exact ⟨minDlci_le pending _ hmin, hmem, hf, ho, hsub⟩
+
+theorem pick_none (pending : List Msg) : pick pending = none ↔ pending = [] := by
+  unfold pick
+  cases hmin : minDlci pending with
+  | none => simp [(minDlci_none pending).1 hmin]
+  | some d =>
+    obtain ⟨m', rest', hr, _⟩ := removeFirst_spec d pending (minDlci_mem pending d hmin)
+    simp [hr]
+    intro e; subst e; simp [minDlci] at hmin
+
+/-- history without over-long messages -/
+def allShort (cap : Nat) : List Op → Prop
+  | [] => True
+  | .send _ p :: ops => p.length < cap ∧ allShort cap ops
+  | _ :: ops => allShort cap ops
+
+structure LinkInv (cap : Nat) (s : Link) (sent : List Msg) : Prop where
+  aligned : s.desync = false
+  short : ∀ m ∈ s.inflight ++ s.pending, m.payload.length < cap
+  fifo : ∀ d, ofDlci d s.all = ofDlci d sent
+
+theorem linkInv_octet (cap : Nat) (s : Link) (sent : List Msg) (h : LinkInv cap s sent) :
+    LinkInv cap (s.octet cap) sent := by
+  unfold Link.octet
+  cases hcur : s.cur with
+  | none =>
+    simp only
+    cases hp : pick s.pending with
+    | none => simp only; exact h
+    | some mr =>
+      obtain ⟨m, rest⟩ := mr
+      obtain ⟨_, hmem, hf, ho, hsub⟩ := pick_spec s.pending m rest hp
+      simp only
+      refine ⟨h.aligned, ?_, ?_⟩
+      · intro x hx
+        simp [Link.inflight] at hx
+        apply h.short
+        rcases hx with rfl | hx
+        · simp [hmem]
+        · simp [hsub x hx]
+      · intro d
+        have := h.fifo d
+        simp only [Link.all, Link.inflight, hcur, ofDlci_append, List.append_nil] at this ⊢
+        rw [← this]
+        by_cases e : d = m.dlci
+        · subst e; rw [hf]; simp [ofDlci]
+        · have e' : (m.dlci == d) = false := by simp; omega
+          rw [ho d e]; simp [ofDlci, e']
+  | some mt =>
+    obtain ⟨m, todo⟩ := mt
+    cases todo with
+    | nil => simp only; exact h
+    | cons ch rest =>
+      simp only
+      split
+      · rw [complete_eq]
+        have hshort : m.payload.length < cap := h.short m (by simp [Link.inflight, hcur])
+        have hal := h.aligned
+        simp only [completeDesync, completeDelivers, hal, hshort, Bool.false_eq_true, if_false, if_true,
+          Bool.not_false, Bool.true_and, decide_true]
+        refine ⟨rfl, ?_, ?_⟩
+        · intro x hx
+          simp [Link.inflight] at hx
+          exact h.short x (by simp [hx])
+        · intro d
+          have := h.fifo d
+          simp only [Link.all, Link.inflight, hcur, ofDlci_append] at this ⊢
+          rw [← this]; simp [ofDlci]
+      · refine ⟨h.aligned, ?_, ?_⟩
+        · intro x hx
+          simp [Link.inflight] at hx
+          exact h.short x (by simp [Link.inflight, hcur, hx])
+        · intro d
+          have := h.fifo d
+          simp only [Link.all, Link.inflight, hcur, ofDlci_append] at this ⊢
+          exact this
+
+theorem linkInv_run (cap : Nat) (s : Link) (sent : List Msg) (ops : List Op) (h : LinkInv cap s sent)
+    (hs : allShort cap ops) : LinkInv cap (specRun cap s ops) (sent ++ sentMsgs ops) := by
+  induction ops generalizing s sent with
+  | nil => simpa [specRun, sentMsgs] using h
+  | cons op ops ih =>
+    simp only [specRun, List.foldl_cons]
+    cases op with
+    | send d p =>
+      have := ih (s.send ⟨d, p⟩) (sent ++ [⟨d, p⟩]) ?_ hs.2
+      · simpa [sentMsgs, specRun, specStep] using this
+      · refine ⟨h.aligned, ?_, ?_⟩
+        · intro x hx
+          simp [Link.send, Link.inflight] at hx
+          rcases hx with hx | hx | rfl
+          · exact h.short x (by simp [Link.inflight, hx])
+          · exact h.short x (by simp [hx])
+          · exact hs.1
+        · intro d'
+          have := h.fifo d'
+          simp only [Link.all, Link.send, Link.inflight, ofDlci_append] at this ⊢
+          rw [← this]; simp
+    | pull => exact ih s sent h hs
+    | loop => exact ih _ sent (linkInv_octet cap s sent h) hs
+    | rx ns => exact ih s sent h hs
+
+/-! ### progress: pulling drains the link -/
+
+theorem removeFirst_sum (d : Nat) (ms : List Msg) (m : Msg) (rest : List Msg)
+    (h : removeFirst d ms = some (m, rest)) (f : Msg → Nat) :
+    (ms.map f).sum = f m + (rest.map f).sum := by
+  induction ms generalizing rest with
+  | nil => simp [removeFirst] at h
+  | cons a ms ih =>
+    simp only [removeFirst] at h
+    split at h
+    · simp at h; obtain ⟨rfl, rfl⟩ := h; simp
+    · cases hr : removeFirst d ms with
+      | none => simp [hr] at h
+      | some xr =>
+        obtain ⟨x, r⟩ := xr
+        simp [hr] at h
+        obtain ⟨rfl, rfl⟩ := h
+        have := ih r hr
+        simp [this]; omega
+
+theorem octet_curOk (cap : Nat) (s : Link) (h : s.curOk) : (s.octet cap).curOk := by
+  unfold Link.octet
+  cases hcur : s.cur with
+  | none =>
+    simp only
+    cases hp : pick s.pending with
+    | none => simp only; exact h
+    | some mr => intro m todo; simp only; intro e; simp at e; rw [← e.2]; simp
+  | some mt =>
+    obtain ⟨m, todo⟩ := mt
+    cases todo with
+    | nil => exact absurd rfl (h m [] hcur)
+    | cons ch rest =>
+      simp only
+      split
+      · rw [complete_eq]; intro m' todo'; simp
+      · rename_i hne; intro m' todo'; simp only; intro e; simp at e; rw [← e.2]; exact hne
+
+theorem octet_remaining (cap : Nat) (s : Link) (h : s.curOk) (hpos : 0 < s.remaining) :
+    (s.octet cap).remaining + 1 = s.remaining := by
+  unfold Link.octet
+  cases hcur : s.cur with
+  | none =>
+    simp only
+    cases hp : pick s.pending with
+    | none =>
+      have := (pick_none s.pending).1 hp
+      simp [Link.remaining, hcur, this] at hpos
+    | some mr =>
+      obtain ⟨m, rest⟩ := mr
+      simp only [Link.remaining, hcur]
+      unfold pick at hp
+      cases hmin : minDlci s.pending with
+      | none => simp [hmin] at hp
+      | some d =>
+        simp only [hmin] at hp
+        rw [removeFirst_sum d s.pending m rest hp]
+        simp [frame]; omega
+  | some mt =>
+    obtain ⟨m, todo⟩ := mt
+    cases todo with
+    | nil => exact absurd rfl (h m [] hcur)
+    | cons ch rest =>
+      simp only
+      split
+      · rename_i hr; subst hr
+        rw [complete_eq]; simp [Link.remaining, hcur]; omega
+      · simp [Link.remaining, hcur]; omega
+
+theorem remaining_zero (s : Link) (h : s.curOk) (hz : s.remaining = 0) : s.cur = none ∧ s.pending = [] := by
+  cases hcur : s.cur with
+  | some mt =>
+    obtain ⟨m, todo⟩ := mt
+    have := h m todo hcur
+    simp [Link.remaining, hcur] at hz
+    exact absurd hz.1 this
+  | none =>
+    refine ⟨rfl, ?_⟩
+    cases hp : s.pending with
+    | nil => rfl
+    | cons a as => simp [Link.remaining, hcur, hp, frame] at hz
+
+theorem drain (cap : Nat) (s : Link) (h : s.curOk) (n : Nat) (hn : s.remaining ≤ n) :
+    let s' := specRun cap s (List.replicate n Op.loop)
+    s'.cur = none ∧ s'.pending = [] := by
+  induction n generalizing s with
+  | zero => simpa [specRun] using remaining_zero s h (by omega)
+  | succ n ih =>
+    simp only [List.replicate_succ, specRun, List.foldl_cons, specStep]
+    by_cases hz : s.remaining = 0
+    · obtain ⟨hc, hp⟩ := remaining_zero s h hz
+      have hfix : s.octet cap = s := by simp [Link.octet, hc, hp, pick, minDlci]
+      rw [hfix]
+      exact ih s h (by omega)
+    · have := octet_remaining cap s h (by omega)
+      exact ih _ (octet_curOk cap s h) (by omega)
+
+theorem specStep_curOk (cap : Nat) (s : Link) (op : Op) (h : s.curOk) : (specStep cap s op).curOk := by
+  cases op with
+  | send d p => exact h
+  | pull => exact h
+  | loop => exact octet_curOk cap s h
+  | rx ns => exact h
+
+theorem specRun_curOk (cap : Nat) (s : Link) (ops : List Op) (h : s.curOk) : (specRun cap s ops).curOk := by
+  induction ops generalizing s with
+  | nil => exact h
+  | cons op ops ih => exact ih _ (specStep_curOk cap s op h)
+
+/-! ### pulling a whole frame -/
+
+theorem pullN_idle (n : Nat) (t : Tx) (hm : t.msg = none) (hq : ∀ q ∈ t.queues, q = []) :
+    pullN n t = (t, []) := by
+  cases n with
+  | zero => rfl
+  | succ n => simp [pullN, pull, hm, dequeueFirst_none t.queues hq]
+
+theorem pullN_txwire (todo : List Nat) (n : Nat) (t : Tx) (h : TxWire t todo)
+    (hq : ∀ q ∈ t.queues, q = []) (hn : todo.length ≤ n) :
+    ∃ t', pullN n t = (t', todo) ∧ t'.msg = none ∧ t'.state ≠ .escape ∧ t'.queues = t.queues := by
+  induction todo generalizing n t with
+  | nil => exact absurd h (fun h => txwire_ne_nil _ h)
+  | cons ch todo ih =>
+    cases n with
+    | zero => simp at hn
+    | succ n =>
+      obtain ⟨t1, hp, hq1, hlast, hmore⟩ := pull_txwire t ch todo h
+      by_cases e : todo = []
+      · subst e
+        obtain ⟨hm, hs⟩ := hlast rfl
+        refine ⟨t1, ?_, hm, hs, hq1⟩
+        simp [pullN, hp, pullN_idle n t1 hm (by rw [hq1]; exact hq)]
+      · obtain ⟨t', hp', hm', hs', hq'⟩ := ih n t1 (hmore e) (by rw [hq1]; exact hq) (by simpa using hn)
+        refine ⟨t', ?_, hm', hs', by rw [hq', hq1]⟩
+        simp [pullN, hp, hp']
+
+/-- the transmitter after `sercomm_init` and one `sercomm_sendmsg` -/
+def txOne (nq : Nat) (m : Msg) : Tx :=
+  { queues := (List.replicate nq []).modify m.dlci (· ++ [txBody m]), msg := none, state := .waitStart }
+
+theorem sendmsg_init (nq : Nat) (m : Msg) (hd : m.dlci < nq) :
+    sendmsg (Tx.init nq) m.dlci m.payload = some (txOne nq m) := by
+  simp [sendmsg, Tx.init, hd, txOne, txBody]
+
+/-- one message queued on an idle transmitter: pulling yields exactly its frame -/
+theorem pull_one_frame (nq : Nat) (m : Msg) (hd : m.dlci < nq) (n : Nat) (hn : (frame m).length ≤ n) :
+    ∃ t', pullN n (txOne nq m) = (t', frame m) ∧ t'.msg = none ∧ ∀ q ∈ t'.queues, q = [] := by
+  have hq0 := queues_send nq (Tx.init nq).queues [] m (queues_init nq)
+  simp only [List.nil_append] at hq0
+  cases n with
+  | zero => simp [frame] at hn
+  | succ n =>
+    rcases dequeue_pick nq _ [m] hq0 (by simpa using hd) with ⟨hp, _⟩ | ⟨m', rest, qs', hp, hdq, hqm, _, _⟩
+    · simp [pick, minDlci, removeFirst] at hp
+    · have : m' = m ∧ rest = [] := by
+        simp [pick, minDlci, removeFirst] at hp; exact ⟨hp.1.symm, hp.2⟩
+      obtain ⟨rfl, rfl⟩ := this
+      have hempty : ∀ q ∈ qs', q = [] := by
+        intro q hq
+        obtain ⟨i, hi, rfl⟩ := List.getElem_of_mem hq
+        have := hqm.2 i (by rw [← hqm.1]; exact hi)
+        rw [List.getElem?_eq_getElem hi] at this
+        simpa [ofDlci] using this
+      let t1 : Tx := { queues := qs', msg := some (txBody m'), state := .waitStart }
+      have hw : TxWire t1 (esc (body m') ++ [0x7E]) := by
+        have := txwire_start t1 (txBody m') rfl (by simp [t1])
+        rwa [txBody_eq] at this
+      obtain ⟨t', hp', hm', _, hq'⟩ := pullN_txwire _ n t1 hw hempty (by simp [frame] at hn ⊢; omega)
+      refine ⟨t', ?_, hm', by rw [hq']; exact hempty⟩
+      have hpull : pull (txOne nq m') = (t1, .octet 0x7E) := by
+        simp only [Tx.init] at hdq
+        simp [pull, txOne, hdq, flag_eq, t1]
+      simp [pullN, hpull, hp', frame]
+
+/-! ### the octet stream of the abstract link is a sequence of frames -/
+
+/-- the wire is the frames that passed, followed by the part of the current frame already sent -/
+def WireInv (s : Link) : Prop :=
+  ∃ part, s.wire = s.completed.flatMap frame ++ part ∧
+    match s.cur with
+    | none => part = []
+    | some (m, todo) => part ++ todo = frame m ∧ todo ≠ []
+
+theorem wireInv_octet (cap : Nat) (s : Link) (h : WireInv s) : WireInv (s.octet cap) := by
+  obtain ⟨part, hw, hc⟩ := h
+  unfold Link.octet
+  cases hcur : s.cur with
+  | none =>
+    simp only [hcur] at hc
+    subst hc
+    simp only
+    cases hp : pick s.pending with
+    | none => simp only; exact ⟨[], hw, by simp [hcur]⟩
+    | some mr =>
+      obtain ⟨m, rest⟩ := mr
+      simp only
+      exact ⟨[0x7E], by simp [hw], by simp [frame]⟩
+  | some mt =>
+    obtain ⟨m, todo⟩ := mt
+    simp only [hcur] at hc
+    obtain ⟨hsplit, hne⟩ := hc
+    cases todo with
+    | nil => exact absurd rfl hne
+    | cons ch rest =>
+      simp only
+      split
+      · rename_i hr; subst hr
+        rw [complete_eq]
+        refine ⟨[], ?_, by simp⟩
+        simp [hw, ← hsplit]
+      · rename_i hr
+        exact ⟨part ++ [ch], by simp [hw], by simpa using hsplit, hr⟩
+
+theorem wireInv_run (cap : Nat) (s : Link) (ops : List Op) (h : WireInv s) : WireInv (specRun cap s ops) := by
+  induction ops generalizing s with
+  | nil => exact h
+  | cons op ops ih =>
+    simp only [specRun, List.foldl_cons]
+    apply ih
+    cases op with
+    | send d p => exact h
+    | pull => exact h
+    | loop => exact wireInv_octet cap s h
+    | rx ns => exact h
+
+theorem wireInv_init : WireInv Link.init := ⟨[], rfl, rfl⟩
 
 end OsmoVerif.Sercomm
